@@ -70,7 +70,10 @@ var c19Names = []string{"V", "W", "Price", "Qty", "a", "B2"}
 var c19MainTypes = []string{"float32", "float64", "int32", "int64"}
 var c19OtherTypes = []string{"int16", "uint8", "uint16", "uint32", "uint64", "byte"}
 var c19Bases = []string{"2021-03-01T10:00:00Z", "2020-12-31T23:00:00Z", "2019-06-30T00:00:00Z", "2022-01-01T00:00:00Z", "2021-12-31T22:00:00Z"}
-var c19NiceFloats = []float64{0, 0.5, 1, 1.5, 2, 2.5, 3, 4, 5.25, 7, 0.1, 0.3, 100.75, 16777217, 1e6}
+// values for float columns and literals: dyadic ones and decimals that are NOT exactly representable in
+// binary (their float32 and float64 images differ, so comparing in the wrong precision shows)
+var c19NiceFloats = []float64{0, 0.5, 1, 1.5, 2, 2.5, 3, 4, 5.25, 7, 0.1, 0.3, 100.75, 16777217, 1e6,
+	10.1, 10.3, 10.7, 2.2, 0.7, 99.99, 1.1, 3.3}
 
 func c19GenVal(r *rng.Rand, typ string, allowNaN bool) int64 {
 	if c19IsFloat(typ) {
@@ -78,7 +81,7 @@ func c19GenVal(r *rng.Rand, typ string, allowNaN bool) int64 {
 		switch k := r.Intn(100); {
 		case allowNaN && r.Chance(20):
 			f = math.NaN()
-		case k < 70:
+		case k < 50:
 			f = float64(r.Range(-4, 12)) / 2
 		case k < 85:
 			f = c19NiceFloats[r.Intn(len(c19NiceFloats))]
@@ -194,6 +197,13 @@ func c19GenValLit(r *rng.Rand, in *c19In, ci int) c19Lit {
 	switch k := r.Intn(100); {
 	case k < 40: // on the stored value
 		f = base
+		if typ == "float32" && r.Chance(75) {
+			// as a user writes it: the shortest decimal that identifies the stored float32 (10.3, not
+			// 10.300000190734863); its float64 value differs from the widened float32
+			if g, err := strconv.ParseFloat(strconv.FormatFloat(base, 'g', -1, 32), 64); err == nil {
+				f = g
+			}
+		}
 	case k < 60: // between stored values
 		f = base + []float64{0.5, -0.5, 0.25}[r.Intn(3)]
 	case k < 75:
